@@ -17,7 +17,11 @@ package metric
 //   crit - | letters D U N V S each followed by one digit: description, unit, scope name (1 c12, 2 lib1, 3 lib2),
 //   scope version (1 v1, 2 v2), scope schema URL (1 s1, 2 s2);
 //   rename - | r<k> | R<k>; filter - | a<key digits> (allow list) | d<key digits> (deny list);
-//   agg - | D default | x drop | s sum | l last value | e explicit [0,10,100] | b base-2 exponential.
+//   agg - | D default | x drop | s sum | l last value | e explicit [0,10,100] | b base-2 exponential |
+//   E explicit with non-monotonic boundaries [10,0] | B base-2 exponential with MaxSize 0 (both fail Aggregation.err():
+//   NewView logs and applies the view WITHOUT an aggregation).  s / l may be incompatible with a matched synchronous
+//   instrument's kind (last value on a counter, sum on a gauge): instrument creation then returns (instrument, error)
+//   and the instrument is used anyway.
 // set: "e" (empty) or k:v.k:v sorted by key id; key ids 1..4 = "a".."d", 9 = "otel.metric.overflow";
 //   value code 0/1 = Bool false/true, n+2 = Int64 n.
 // ops: m = synchronous measurement, o = observation replayed by the instrument's callback at every collection
@@ -387,6 +391,10 @@ func (v c12View) build() View {
 		mask.Aggregation = AggregationExplicitBucketHistogram{Boundaries: bounds}
 	case "b":
 		mask.Aggregation = AggregationBase2ExponentialHistogram{MaxSize: 160, MaxScale: 20}
+	case "E":
+		mask.Aggregation = AggregationExplicitBucketHistogram{Boundaries: []float64{10, 0}}
+	case "B":
+		mask.Aggregation = AggregationBase2ExponentialHistogram{MaxSize: 0, MaxScale: 20}
 	}
 	view := NewView(crit, mask)
 	c12Scribble(bounds, 7) // the caller reuses its slice
@@ -824,6 +832,38 @@ func TestVerifC12Views(t *testing.T) {
 			f := []string{"-", "a1", "a12", "d2"}[r.Intn(4)]
 			vs = append(vs, "n0/-/r0/"+f+"/-", "n1/-/"+[]string{"r0", "R0"}[r.Intn(2)]+"/-/-")
 		}
+		if gen == "mixed" {
+			// one synchronous instrument matched by a view that cannot be honoured for its kind AND by valid views
+			// (renaming / filtering / re-aggregating), in either order, exact and wildcard criteria
+			is[0] = string([]byte{"if"[r.Intn(2)], "cuhg"[r.Intn(4)]})
+			for j := 1; j < ni; j++ { // synchronous instruments only: see the note on observables in mutants/C12/RESULTS.md
+				is[j] = is[j][:1] + strings.ToLower(is[j][1:2])
+			}
+			bad := "l"
+			if is[0][1] == 'g' {
+				bad = "s"
+			}
+			pat := func() string { return []string{"n0", "s", "q", "g105_42", "-/" + is[0][1:2]}[r.Intn(5)] }
+			mk := func(agg string, rename bool) string {
+				p := pat()
+				kind := "-"
+				if strings.HasPrefix(p, "-/") {
+					p, kind = "-", p[2:]
+				}
+				rn := "-"
+				if rename && (p == "n0" || p == "-") {
+					rn = []string{"r0", "r1", "R0"}[r.Intn(3)]
+				}
+				f := []string{"-", "-", "a1", "a12", "d2"}[r.Intn(5)]
+				return strings.Join([]string{p, kind, rn, f, agg}, "/")
+			}
+			good := []string{mk("-", true), mk([]string{"e", "b", "D", "E"}[r.Intn(4)], true)}[:1+r.Intn(2)]
+			all := append([]string{mk(bad, r.Intn(2) == 0)}, good...)
+			if r.Intn(2) == 0 {
+				all[0], all[len(all)-1] = all[len(all)-1], all[0]
+			}
+			vs = append(vs, all...)
+		}
 		// views
 		nv := 0
 		if r.Intn(4) != 0 {
@@ -891,13 +931,17 @@ func TestVerifC12Views(t *testing.T) {
 				v.filter = string(f)
 			}
 			if r.Intn(2) == 0 {
-				v.agg = string("DxxslebbeD"[r.Intn(10)])
+				v.agg = string("DxxslebbeDEBsl"[r.Intn(14)])
+				// an aggregation that is incompatible with a matched instrument's kind is kept (one time in two) when all
+				// such instruments are synchronous: the instrument is created with an error and used anyway
+				keep := gen == "mixed" || r.Intn(2) == 0
 				for j := 0; j < ni; j++ {
 					if !v.matches(c12ParseInst(is[j], j)) {
 						continue
 					}
 					gauge := is[j][1] == 'g' || is[j][1] == 'G'
-					if (v.agg == "s" && gauge) || (v.agg == "l" && !gauge) {
+					async := is[j][1] >= 'A' && is[j][1] <= 'Z'
+					if ((v.agg == "s" && gauge) || (v.agg == "l" && !gauge)) && (async || !keep) {
 						v.agg = "e"
 					}
 				}
@@ -1049,6 +1093,8 @@ func TestVerifC12Views(t *testing.T) {
 			genCase("ovf-first")
 		} else if i%16 == 3 {
 			genCase("shared")
+		} else if i%16 == 2 {
+			genCase("mixed")
 		} else if i%8 == 1 {
 			genCase("ident")
 		} else if i%8 == 5 {
